@@ -326,7 +326,7 @@ func (a *inAnch) bufferUses(f *fn, nd ast.Node) []ast.Expr {
 func (a *inAnch) readers() []*fn {
 	var out []*fn
 	for _, f := range a.v.funcs {
-		if rv := f.recvVar(); rv != nil && a.v.isConnPtr(rv.Type()) && a.readerMethods[f.Obj.Name()] {
+		if rv := f.recvVar(); rv != nil && a.v.isConnPtr(rv.Type()) && a.readerMethods[nameOf(f.Obj)] {
 			out = append(out, f)
 		}
 	}
